@@ -77,7 +77,7 @@ def place_frames(rng, nframes_max, wsize, first_min, gen_hex, p_corrupt):
         if rng.random() < 0.12 and wsize - fs - pos > 0 and wsize - fs - 2 >= pos:
             pos = wsize - fs - rng.choice([0, 1, 2])  # end right at the window edge
         f = {"hex": hx, "start": pos, "amp": rng.choice([0.3, 0.31, 0.35, 0.5, 0.8, 1.0, 1.2, 1.35, 1.4, rng.uniform(0.3, 1.4)]),
-             "ripple": rng.choice([0.0, 0.0, 0.02, 0.05]), "rseed": rng.getrandbits(31), "flips": []}
+             "ripple": rng.choice([0.0, 0.0, 0.02, 0.05, -1.0, -2.0]), "rseed": rng.getrandbits(31), "flips": []}
         if R.hex_df(hx) == 17 and rng.random() < p_corrupt:
             if rng.random() < 0.6:
                 f["flips"] = sorted(rng.sample(range(5, 112), rng.randint(1, 5)))
@@ -299,7 +299,7 @@ def generate(run_seed, tier):
     if quiet and rw.random() < 0.5:
         for w in windows:
             for f in w["frames"]:
-                if R.hex_df(f["hex"]) == 17 and not f["flips"] and f["amp"] * (1 - f["ripple"]) >= 0.86 and rw.random() < 0.5:
+                if R.hex_df(f["hex"]) == 17 and not f["flips"] and f["ripple"] >= 0 and f["amp"] * (1 - f["ripple"]) >= 0.86 and rw.random() < 0.5:
                     k0 = rw.choice([8, 20, 33, 52, 57, 80, 100, 108, 110])
                     f["drop"] = [k0, rw.choice([1, 1, 2, 5])]
                     if f["drop"][0] + f["drop"][1] > 112:
@@ -413,6 +413,8 @@ def execute(sc, keep_log=False):
                 stats.c["fault.dropout_in_df17"] += 1
             if f["start"] & 1:
                 stats.c["probe.odd_start_offset"] += 1
+            if f.get("ripple", 0) < 0:
+                stats.c["probe.per_pulse_amplitudes_anywhere_in_0.3_1.4"] += 1
             if f["amp"] < 0.4:
                 stats.c["probe.amp_below_0.4"] += 1
             if f["amp"] > 1.3:
